@@ -18,6 +18,11 @@ C04  Schedule and configuration independence — what is proved.
   order; the complement of the known finding about non-monotone output times) and the cached connections are covered
   by the input-delay table (`PullOk`): neither a `get_data` reply of a source (its entry lies after what the step
   reads) nor cache pruning (which keeps everything a consumer can still read) changes what the enabled step will read.
+* `cache_on_off_same_value` (data level of "the data cache on or off"): read off the same output history of the source, the
+  cache path (`C03.pull_refines_spec`) and the push path (`C03.begin_push_refines_spec`) deliver the same value over a persistent
+  connection — `(lookup of the never-pruned cache at c − shift)[attr] = last produced value due at or before c` — whenever the
+  reported output times do not go back, every reply carries the attribute (a persistent attribute must always be produced) and
+  there is no initial data (`Sched/CachePush.lean`)
 NOT proved: that all maximal runs give every simulator the same (time, inputs) sequence (the
 commutation/confluence argument of DESIGN.md).  That part is decided by exhaustive enumeration of all
 reply interleavings of small scenarios on the real scheduler and by the cross product of
@@ -26,6 +31,7 @@ configurations (lazy, cache, debug, start order, in-process / subprocess) on gen
 import MosaikModel.Deliver
 import MosaikProofs.Sched.Others
 import MosaikProofs.Sched.Cached
+import MosaikProofs.Sched.CachePush
 namespace Mosaik.C04
 open Mosaik
 
@@ -303,5 +309,20 @@ theorem begin_inputs_stable_cached {cfg : Cfg} (hw : WFCfg cfg) (hs : WFShape cf
   simp only
   unfold dueAt at hdue
   rw [hdue]
+
+/-- cache on or off: the same value, as a function of the source's output history (statement: `Sched/CachePush.lean`) -/
+theorem cache_on_off_same_value (cfg : Cfg) (src : Sid) (sport : Port) (sh : Nat) (h0 : (cfg.sim src).outputs0 = []) (c : Nat)
+    (log : List Event) (hok : LogOk src sport log) :
+    (OutData.get? (getOutputFor (histOf cfg src log) ((c : Int) - (sh : Int))) sport).getD none =
+      lastVal ((pushHist src sport sh log).filter (fun x => decide (x.1 ≤ c))) none :=
+  cache_push_agree cfg src sport sh h0 c log hok
+
+/-- non-vacuity: two replies (7 at time 0, 8 at time 1) over a connection of shift 1: at step time 1 both paths give 7, at 2 both give 8 -/
+example : LogOk 0 (0, 0) [.got 0 [1] [1] [((0, 0), some 8)], .stepped 0 [1], .got 0 [0] [0] [((0, 0), some 7)]] := by
+  simp [LogOk, gotTimes, OutData.get?, TT.time, tier]
+
+example : (OutData.get? (getOutputFor (histOf {} 0 [.got 0 [1] [1] [((0, 0), some 8)], .stepped 0 [1], .got 0 [0] [0] [((0, 0), some 7)]]) ((1 : Int) - 1)) (0, 0)).getD none = some 7 ∧
+    lastVal ((pushHist 0 (0, 0) 1 [.got 0 [1] [1] [((0, 0), some 8)], .stepped 0 [1], .got 0 [0] [0] [((0, 0), some 7)]]).filter (fun x => decide (x.1 ≤ 2))) none = some 8 := by
+  decide
 
 end Mosaik.C04
